@@ -304,6 +304,11 @@ class IterateUnit(Unit):
                         x[j] = spec.ub[j] - g.rng.choice([atol, -atol, 2 * atol])
             y = g.vec(spec.m, kmax=8, jmax=1)
             sj = spec.to_json()
+            if not trans and k % 6 == 2 and spec.m > 0:
+                # rows whose value at the point is exactly zero (the penalty curvature rho J^T J does not care)
+                probe = QuadProblem(spec)
+                cv = probe.cons(np.array(x, dtype=float))
+                sj["c0"] = [float(a - b) for a, b in zip(sj["c0"], cv)]
             if not trans and k % 6 == 5:
                 # bounds of large magnitude with the point a hair inside / outside the activity tolerance: a test that is
                 # relative to |bound| instead of absolute (np.isclose and the like) decides differently here.  Affine data
